@@ -194,6 +194,16 @@ func ProjectWith(m modeling.Mesh, opt ProjectOpt) (Desc, error) {
 		it := m.Float1Attribute(n)
 		conv(n, 1, it.Len(), func(i int) []float64 { return []float64{it.At(i)} })
 	}
+	// a nat literal cannot be negative: an out-of-range stand-in keeps the mesh ill-formed for the Coq
+	// side and the negative index is reported as a harness-side failure as well
+	for k, i := range d.Idx {
+		if i < 0 || i > 1000000 {
+			if firstErr == nil {
+				firstErr = fmt.Errorf("index %d at position %d is negative or absurd", i, k)
+			}
+			d.Idx[k] = d.NVerts() + 7
+		}
+	}
 	return d, firstErr
 }
 
